@@ -5,6 +5,10 @@
 #include "drv_common.h"
 #include "aws_sign.h"
 
+/* an absent body (NULL) is passed with a non-zero bodylen: the documented request has no body
+ * then, so the length must be ignored (a function that hashed bodylen bytes would fault) */
+#define DRV_NULL_BODYLEN 7
+
 static time_t drv_t0;
 static int drv_tcalls;
 
@@ -61,7 +65,7 @@ int main(void)
 		drv_tcalls = 0;
 		if (n == 9 && strcmp(tok[0], "s3h") == 0) {
 			for (i = 0; i < 6; i++) a[i] = cstr_of(tok[1 + i]);
-			if (strcmp(tok[7], "NULL") != 0) body = drv_unhex(tok[7], &bodylen, 0);
+			if (strcmp(tok[7], "NULL") != 0) body = drv_unhex(tok[7], &bodylen, 0); else bodylen = DRV_NULL_BODYLEN;
 			drv_t0 = (time_t)strtoll(tok[8], NULL, 10);
 			drv_inlib = 1; rc = aws_sign_s3_headers(a[0], a[1], a[2], a[3], a[4], a[5], body, bodylen, &c, &d, &au); drv_inlib = 0;
 			if (rc == 0) { printf("ok "); puthexstr(c); printf(" "); puthexstr(d); printf(" "); puthexstr(au); printf("\n"); free(c); free(d); free(au); }
@@ -77,7 +81,7 @@ int main(void)
 			for (i = 0; i < 6; i++) free(a[i]);
 		} else if (n == 7 && (strcmp(tok[0], "svc") == 0 || strcmp(tok[0], "ddb") == 0)) {
 			for (i = 0; i < 4; i++) a[i] = cstr_of(tok[1 + i]);
-			if (strcmp(tok[5], "NULL") != 0) body = drv_unhex(tok[5], &bodylen, 0);
+			if (strcmp(tok[5], "NULL") != 0) body = drv_unhex(tok[5], &bodylen, 0); else bodylen = DRV_NULL_BODYLEN;
 			drv_t0 = (time_t)strtoll(tok[6], NULL, 10);
 			drv_inlib = 1;
 			if (tok[0][0] == 's')
